@@ -29,7 +29,7 @@ func (eng) Rule() string {
 		"under the same veto table; (early) disposed / backing-off / over-queue-limit machines; (enum) all schemas over 2 " +
 		"states x all pairs of mutations handler-less; (readers) 1-8 goroutines take single-call snapshots (Time, Clock, StringAll, String, " +
 		"Inspect, Export) while 1-3 goroutines mutate, every snapshot must be a vector of the recorded chain. Each mutation is judged from the caller's side (Result, Time before/after) " +
-		"and from its own transition located by a unique uid argument. Distinct non-trivial = distinct (schema, veto table, " +
+		"and from its own transition located by a unique uid argument; follow cases: the handlers queue follow-up mutations, the Result is compared with the caller's own transition. Distinct non-trivial = distinct (schema, veto table, " +
 		"history prefix) in which at least one handler ran or a relation applied."
 }
 func (eng) Assumptions() []string {
